@@ -137,6 +137,10 @@ def runs(base, standin, rankings, scheme, one, n_univ, explore_max=4, seeds=(0, 
             return elements[i]
         st, p = run_once(base, standin, rankings, scheme, one, chooser=chooser)
         count += 1
+        if base == "KwikSortRandom" and st == "ok" and not trace:
+            # harness self-check (a crash, never a violation): the pivot hook must be the one the repository draws from
+            raise RuntimeError("pivot control ineffective: KwikSortRandom answered without drawing a pivot through "
+                               "corankco.algorithms.kwiksort.kwiksortrandom.choice")
         yield "pivots=%s" % [t[0] for t in trace], st, p
         for k in range(len(prefix), len(trace)):
             for alt in range(1, trace[k][1]):
